@@ -582,6 +582,7 @@ func propC12(c *Ctx) {
 	c.Rule("R12.4", "every cell value is offered to its column's filter; a row is appended only when the fold accepts", 8)
 	checkEveryCellFiltered(c, "R12.4")
 	checkFiltersNeverOverwritten(c, "R12.4")
+	res12 := NewResolver(w)
 	for _, name := range []string{"Integration.processLog", "Integration.processTx"} {
 		fn := w.Fn("dig", name)
 		n := 0
@@ -591,7 +592,7 @@ func propC12(c *Ctx) {
 			if !ok || len(vs) != 1 {
 				continue
 			}
-			if _, isRow := vs[0].(*ssa.MakeSlice); !isRow {
+			if !isRowValue(res12, vs[0]) {
 				continue
 			}
 			n++
@@ -600,6 +601,35 @@ func propC12(c *Ctx) {
 				// the frs literal of this iteration: its kind is ig.filterAGG
 				recv := a.Call.Args[0]
 				kindOK := false
+				// the accumulator as a field of a per-row object: what the constructor put there
+				if fa, ok := stripConv(recv).(*ssa.FieldAddr); ok {
+					if ff, _ := fieldOf(fa); ff != nil {
+						res12.build()
+						stores := res12.fieldStore[ff]
+						kindOK = len(stores) > 0
+						for _, sv := range stores {
+							good := false
+							if u, ok := stripConv(sv).(*ssa.UnOp); ok && u.Op == token.MUL {
+								if al, ok := u.X.(*ssa.Alloc); ok {
+									for _, ref := range *al.Referrers() {
+										if kfa, ok := ref.(*ssa.FieldAddr); ok {
+											if kf, _ := fieldOf(kfa); kf == fKind {
+												for _, r2 := range *kfa.Referrers() {
+													if st, ok := r2.(*ssa.Store); ok && (fieldIs(st.Val, fAGG) || isLoadOfField(st.Val, fAGG)) {
+														good = true
+													}
+												}
+											}
+										}
+									}
+								}
+							}
+							if !good {
+								kindOK = false
+							}
+						}
+					}
+				}
 				if al, ok := recv.(*ssa.Alloc); ok {
 					for _, ref := range *al.Referrers() {
 						if fa, ok := ref.(*ssa.FieldAddr); ok {
@@ -619,8 +649,25 @@ func propC12(c *Ctx) {
 				}
 			}
 			// the fold state is fresh for every row: between two rows the filterResults literal is re-initialised
-			row := vs[0].(*ssa.MakeSlice)
+			row, isMade := vs[0].(*ssa.MakeSlice)
 			fresh := true
+			if !isMade {
+				// row and fold state live in one object made per row (c := ig.candidate(…)): fresh together,
+				// provided the accumulator consulted is a field of the very object the row is read from
+				fresh = false
+				_, rowBase := loadedField(stripConv(vs[0]))
+				for _, a := range callsToFn(fn, acc) {
+					if fa, ok := stripConv(a.Call.Args[0]).(*ssa.FieldAddr); ok && rowBase != nil && stripConv(fa.X) == stripConv(rowBase) && dominatesInstr(a, ap) {
+						if _, isCall := stripConv(rowBase).(*ssa.Call); isCall {
+							fresh = true
+						}
+					}
+				}
+				c.Check("R12.4", fmt.Sprintf("%s/row-append#%d-fresh-fold-state", fnName(fn), n), ap.Pos(), fresh, "the filterResults accumulator is re-initialised for every row (a verdict of one row must not leak into the next row of the same log)")
+				c.Check("R12.4", fmt.Sprintf("%s/row-append#%d-only-if-accepted", fnName(fn), n), ap.Pos(), len(accT) > 0 && guardedByEdges(fn, ap, accT),
+					"rows = append(rows, row) is reached only when filterResults{kind: ig.filterAGG}.accept() is true")
+				continue
+			}
 			for _, a := range callsToFn(fn, acc) {
 				al, ok := a.Call.Args[0].(*ssa.Alloc)
 				if !ok || !dominatesInstr(a, ap) {
